@@ -6,7 +6,9 @@ import (
 	"sync"
 )
 
-const ansi = "[\u001B\u009B][[\\]()#;?]*(?:(?:(?:[a-zA-Z\\d]*(?:;[a-zA-Z\\d]*)*)?" +
+// the first alternative: save / restore cursor (ESC 7, ESC 8) are complete two-character sequences, the
+// general form below would take the digit for a parameter and swallow the character that follows it.
+const ansi = "\u001B[78]|[\u001B\u009B][[\\]()#;?]*(?:(?:(?:[a-zA-Z\\d]*(?:;[a-zA-Z\\d]*)*)?" +
 	"\u0007)|(?:(?:\\d{1,4}(?:;\\d{0,4})*)?[\\dA-PRZcf-ntqry=><~]))"
 
 var (
